@@ -636,8 +636,9 @@ fn nsec3_configs(quick: bool) -> Vec<N3Cfg> {
         }
         for (opt_out, exclude) in opt {
             for dnskey in [true, false] {
-                if quick && !dnskey && !(salt.is_empty() && it == 0) {
-                    // quick: DNSKEY-off only with the RFC 9276 parameters
+                if !dnskey && !(salt.is_empty() && it == 0) && (quick || !(salt.len() == 1 && it == 5)) {
+                    // DNSKEY-off (it only changes one apex bit): quick with
+                    // the RFC 9276 parameters only, thorough also with (AB, 5)
                     continue;
                 }
                 v.push(N3Cfg { salt: salt.clone(), iters: it, opt_out, exclude, dnskey, ttl_mode: 0 });
@@ -800,7 +801,7 @@ fn check_nsec(run: &Run, z: &Zone, sorted: &Sorted, dnskey: bool, loc: &mut Loca
         println!("zone: {}", z.text());
         println!("library NSEC chain ({} records):", recs.len());
         for r in &recs {
-            println!("  {} NSEC {} [{}]", r.owner(), r.data().next_name(), r.data().types());
+            let _ = guard(|| println!("  {} NSEC {} [{}]", r.owner(), r.data().next_name(), r.data().types()));
         }
         println!("expected NSEC chain:");
         for (i, &id) in exp.iter().enumerate() {
@@ -1177,7 +1178,7 @@ fn check_nsec3(run: &Run, z: &Zone, sorted: &Sorted, n3: &N3Run, loc: &mut Local
                     None
                 }
             });
-            println!("  {} NSEC3 {} ; original owner {:?}", r.owner(), r.data(), who);
+            let _ = guard(|| println!("  {} NSEC3 {} ; original owner {:?}", r.owner(), r.data(), who));
         }
         println!("expected (mandatory) original owners, in hash order:");
         let mut m: Vec<usize> = mand.iter().copied().collect();
@@ -1463,7 +1464,7 @@ fn slots(quick: bool) -> Vec<Slot> {
     } else {
         vec![
             s("a.z.", 1, full),
-            s("A.z.", 2, full),
+            s("A.z.", 2, &[&[], &[T_A], &[T_A, T_TXT]]),
             s("b.a.z.", 1, &[&[], &[T_A], &[T_A, T_TXT], &[T_CNAME], &[T_TXT, T_CAA, T_PRIV], &[T_A, T_PRIV, T_PRIV2]]),
             s("*.a.z.", 1, full),
             s("c.z.", 1, &[&[], &[T_NS], &[T_NS, T_A]]),
@@ -1472,7 +1473,7 @@ fn slots(quick: bool) -> Vec<Slot> {
             s("d.z.", 1, &[&[], &[T_NS, T_DS], &[T_NS, T_DS, T_TXT]]),
             s("e.f.z.", 1, full),
             s("h.f.z.", 1, &[&[], &[T_A], &[T_NS]]),
-            s("k.e.f.z.", 1, &[&[], &[T_A], &[T_CNAME]]),
+            s("k.e.f.z.", 1, &[&[], &[T_A]]),
         ]
     }
 }
@@ -1778,9 +1779,10 @@ fn main() {
             mul *= s.kinds.len() as u64;
         }
         for zi in [all1, nzones / 3, nzones - 1] {
+          let _ = guard(|| {
             let (recs, _) = zone_of_index(&sl, zi);
             let z = Zone::build(&u, recs);
-            let Ok(sorted) = guard(|| sorted_of(&z.recs)) else { continue };
+            let Ok(sorted) = guard(|| sorted_of(&z.recs)) else { return };
             let apex = lname(&u.apex_labels);
             let nsec = guard(|| generate_nsecs(&apex, sorted.owner_rrs(), &GenerateNsecConfig::new()))
                 .map_err(|_| ())
@@ -1794,6 +1796,10 @@ fn main() {
                 .map(|v| v.nsec3s.iter().map(|r| format!("{} NSEC3 {}", r.owner(), r.data())).collect::<Vec<_>>())
                 .unwrap_or_default();
             samples.push(json!({"zone_index": zi, "zone": z.text(), "nsec_chain": nsec, "nsec3_cfg": c.cfg.json(), "nsec3_chain": nsec3}));
+          });
+        }
+        if samples.is_empty() {
+            samples.push(json!({"zone_index": all1, "note": "rendering the sample chains panicked inside the library"}));
         }
     }
 
